@@ -204,7 +204,7 @@ def _solve_stages(args, ctl=None):
     lite = bool(args[6]) if len(args) > 6 else False   # retry pass: only the stages that settle obligations in practice
     t0 = time.time()
     first = min(timeout_ms, max(6000, timeout_ms // 4))   # 6 s in the first pass, 15 s in the retry pass (60 s budget)
-    subt = max(12000, timeout_ms // 3)   # premise-selected sub-problems: the stage that settles most hard obligations
+    subt = max(10000, timeout_ms // 3)   # premise-selected sub-problems: the stage that settles most hard obligations
     LIN = {"smt.mbqi": False, "smt.arith.nl": False}
     EM = {"smt.mbqi": False}
     # Restricted configurations: E-matching only (EM), and additionally nonlinear products treated
@@ -249,7 +249,7 @@ def _solve_stages(args, ctl=None):
         r1, _ = _z3_check(sub, subt, LIN)
         if r1 == "unsat":
             yield name, r1, f"z3-{tag}-lin", time.time() - t0, "", (sub, LIN)
-    for tag, sub in subsets:
+    for tag, sub in subsets[:2]:
         if late():
             break
         r1, _ = _z3_check(sub, subt)
@@ -336,7 +336,7 @@ def run_jobs(jobs, workers, hard_factor=3.0):
             p = ctx.Process(target=_job_main, args=(child, job), daemon=True)
             p.start()
             child.close()
-            hard = (6 * min(job[3], max(6000, job[3] // 4)) + job[3] + 3 * max(12000, job[3] // 3) * (len(job[5]) if len(job) > 5 else 0)) / 1000.0 * 1.5 + (CVC5_TIMEOUT_S + 6 if job[4] else 0) + 5 + (100 if CONFIRM else 0) + 16 * (len(job[5]) if len(job) > 5 else 0) + (240 if CONFIRM else 0)
+            hard = (6 * min(job[3], max(6000, job[3] // 4)) + job[3] + 3 * max(10000, job[3] // 3) * (len(job[5]) if len(job) > 5 else 0)) / 1000.0 * 1.5 + (CVC5_TIMEOUT_S + 6 if job[4] else 0) + 5 + (100 if CONFIRM else 0) + 16 * (len(job[5]) if len(job) > 5 else 0) + (240 if CONFIRM else 0)
             running[job[0]] = (p, parent, time.time(), hard)
         done = []
         for name, (p, conn, t0, hard) in running.items():
